@@ -28,7 +28,6 @@ from .. import projects as P
 CFG = """SPECIFICATION Spec
 CONSTANTS Source = "file"
 CONSTRAINT EmitNames
-INVARIANT ResolvesRightOrNot
 """
 
 
@@ -38,6 +37,7 @@ def c04_projects(quick: bool, rng: random.Random) -> List[Dict[str, Any]]:
         head, tail = ps[:-2], ps[-2:]
         ps = head[::5] + tail
     ps += list(families.t_c04_pkginit())
+    ps += list(families.t_c04_class_members())
     ps += [p for p in families.t3_reexport() if p["meta"].get("idiom") in ("moved-module", "module-alias-handed-on")
            or (p["meta"].get("form") == "plain" and p["meta"].get("consumers") in (["o"], ["o2"], ["o", "r"]))]
     ps += list(families.t1_base_chains())[:: (6 if quick else 1)] + list(families.t6_nested_packages())
@@ -157,6 +157,18 @@ def check_pybind_vs_cpython(ctx: Ctx, proj: Dict[str, Any], rows: List[Dict[str,
             s = json.loads(key[2:])
             sk = (s[0], s[1])
         cp = {name: ([t[1], 0] if t[0] == "mod" else [t[1], t[2]]) for name, t in ns.items() if t}
+        # names reached through a class value (C.member along the MRO)
+        cls_names = {nm for nm, t in ns.items() if t and t[0] == "obj"}
+        pb2: Dict[str, Dict[str, List[int]]] = collections.defaultdict(dict)
+        for r in rows:
+            if len(r["name"]) == 2 and (r["scope"][0], r["scope"][1]) == sk and r["name"][0] in o.get("cattrs", {}).get(key, {}):
+                pb2[r["name"][0]][r["name"][1]] = r["py"]
+        for cname, attrs in o.get("cattrs", {}).get(key, {}).items():
+            cp2 = {a: ([t[1], 0] if t[0] == "mod" else [t[1], t[2]]) for a, t in attrs.items() if t}
+            if cp2 != pb2.get(cname, {}):
+                raise MachineryError(f"PyBind.tla (class attribute lookup) disagrees with CPython for {cname} in scope {sk} of "
+                                     f"{proj['family']} {proj['meta']}: spec {pb2.get(cname, {})} vs CPython {cp2}")
+            n += len(cp2)
         if cp != pb.get(sk, {}):
             raise MachineryError(f"PyBind.tla disagrees with CPython in scope {sk} of project {proj['family']} {proj['meta']}: "
                                  f"spec {pb.get(sk, {})} vs CPython {cp}")
@@ -180,6 +192,7 @@ def run(ctx: Ctx) -> int:
         if len(r.printed) != expected:
             raise MachineryError(f"TLC printed {len(r.printed)} behaviours, expected {expected}")
         for rec in r.printed:
+            design += ["ResolvesRightOrNot"] if any(row["res"] and row["res"] != row["py"] for row in rec["rows"]) else []
             proj = part[rec["pid"] - 1]
             gp = off * 150 + rec["pid"]
             if gp not in seen_pid:
